@@ -55,7 +55,7 @@ THEOREMS = [
     'C11.transform_unit_independent', 'C11.setCij_idem', 'C11.setCij_smul', 'C11.setCijkl_of_symm',
     'C11.transform_homogeneous', 'C11.normalized_setter_idem_triclinic', 'C11.normalized_setter_idem_cubic',
     'C11.normalized_setter_idem_tetragonal', 'C11.normalized_setter_idem_orthorhombic',
-    'C11.normalized_setter_idem_monoclinic',
+    'C11.normalized_setter_idem_monoclinic', 'C11.is_normal_of_fixed', 'C11.is_normal_of_normalized_setter',
 ]
 PARTIAL = {
     'transform_with_cleanups': 'transform_id/comp/inv, energy and moduli invariance and system_invariant_* are proved for '
@@ -1006,7 +1006,10 @@ def _bad_keysets():
             {'C11', 'C12', 'C13', 'C14', 'C15', 'C16', 'C33', 'C44'},
             {'C11', 'C22', 'C33', 'C12', 'C13', 'C23', 'C44', 'C55', 'C16'},
             set(CIJ_KEYS[:10]), set(CIJ_KEYS) - {'C66'} | {'K'},
-            {'E', 'C13'}, {'nu', 'C66'}]
+            {'E', 'C13'}, {'nu', 'C66'},
+            # a foreign keyword next to a complete set (the leftover must not be ignored)
+            {'C11', 'C66', 'C13', 'C14', 'C15', 'C33', 'C44', 'C55'}, {'C12', 'C66', 'C13', 'C14', 'C15', 'C33', 'C44', 'C16'},
+            {'C11', 'C12', 'C13', 'C33', 'C44', 'C66', 'C15'}, {'C11', 'C12', 'C44', 'C13'}]
 
 
 
@@ -1148,6 +1151,11 @@ def _ctor_all(methods):
         i = [x for x in infos if x['keys'] == sorted(ks, key=KEY_ORDER.index)][0]
         if i['status'] != 'ok':
             raise TranslationError(f'admissible keyword set {keyname(ks)} raises {i["status"]}')
+    for ks in _bad_keysets():
+        i = [x for x in infos if x['keys'] == sorted(ks, key=KEY_ORDER.index)][0]
+        if i['status'] != 'TypeError':
+            raise TranslationError(f'keyword set {keyname(ks)} is not a documented one and must raise TypeError; the '
+                                   f'source now gives: {i["status"]}')
     iso_infos, iso_texts = [], []
     for ks in _iso_keysets():
         st, name, text, info = _ctor_def(methods, ks)
@@ -1236,7 +1244,17 @@ RULE = ('Cij inputs: the 21 symmetric basis matrices (index probing), random sym
         'the reads Cij Sij Cij9 Cijkl Sijkl bulk shear normalized_as is_normal transform str, the caller '
         'overwriting every returned array / re-initialising every returned object, set -> reads -> slightly '
         'different set (relative change 1e-7..1e-2, through each of the seven entry points) -> reads, refused '
-        'sets; each read compared with the same read on a fresh object.  distinct = distinct canonical driver '
+        'sets; each read compared with the same read on a fresh object.  Cross-cutting classes (oracle, decided '
+        'by tables written in the harness): keyword sets = every documented set of every crystal-system method '
+        'with one keyword added / replaced by a typo or a foreign constant / removed, through the constructor and '
+        'the method; left-handed axes with every row negated / every pair exchanged, tilted rows, unknown styles '
+        'and systems, malformed arrays; transform tol default / keyword / positional / 0 on signed-permutation '
+        'axes with planted entries 3e-10..2e-3 of the maximum; is_normal with absolute-only / relative-only '
+        'tolerances; arrays as list / tuple / Fortran / read-only / strided / float32 / int64 / int32, named '
+        'constants as python and numpy ints and floats and 0-d arrays mixed in one call at magnitudes 1..1e11; '
+        'axes_check directly; the data model under six working-unit systems, SI and a random seed incl. a change '
+        'between two calls; scales also 2^+-100..2^+-480; nu = 0 with non-dyadic moduli, lambda/mu up to 2000; '
+        'general tensors under the 24 cube rotations.  distinct = distinct canonical driver '
         'line; non-trivial = non-error case with a non-diagonal / non-identity input')
 ASSUMPTIONS = [
     'numpy.linalg.inv returns the inverse: the model takes the exact rational inverse (hypothesis C*S = 1 and S*C = 1 '
@@ -3875,7 +3893,12 @@ MANIFEST = {
             'rotations and ill-conditioned tensors, at tolerances relative to the tensor.  An object model (one stored '
             'matrix; setters overwrite, reads are pure: object_* theorems) is tied to the class by running operation '
             'sequences on one object in both, and the oracle checks read-order independence, absence of aliasing and '
-            'of stale or shared state against fresh objects.',
+            'of stale or shared state against fresh objects.  Refusals (keyword sets, improper / tilted axes, styles, '
+            'malformed arrays), options (tol, atol/rtol, default style, zero-valued constants), input forms (dtypes, '
+            'layouts, numpy scalars), axes_check on its own and the data model under non-default working units are '
+            'decided by independent tables in the oracle; stored states are fixed points of the Cij setter, transform '
+            'is homogeneous under a change of units, and normalisation through the setter is idempotent for five of '
+            'the eight targets (theorems).',
     'note': 'Trusted: Lean kernel + propext/Classical.choice/Quot.sound; the translator/symbolic executor in '
             'harness/props/c11.py; numpy einsum/inv/isclose. The 6x6 inverse and the square roots are parameters with '
             'hypotheses (C*S = 1 and S*C = 1; r*r = radicand, r >= 0). Float rounding and the 1e-8/1e-9 clean-ups are '
